@@ -204,6 +204,14 @@ func checkWireLinks(e *Env, sim *Sim, c2sL, s2cL []*Link, connDied bool) {
 	const prop = "C06"
 	all := append(emitted(c2sL, true), emitted(s2cL, false)...)
 	sort.Slice(all, func(i, j int) bool { return all[i].N < all[j].N })
+	refusedOpen := map[uint64]bool{}
+	for _, l := range c2sL {
+		l.mu.Lock()
+		for _, id := range l.RefusedOpens {
+			refusedOpen[id] = true
+		}
+		l.mu.Unlock()
+	}
 	cs := map[idKey]*c2sState{}
 	ss := map[idKey]*s2cState{}
 	callOfID := map[idKey]int{}
@@ -234,6 +242,11 @@ func checkWireLinks(e *Env, sim *Sim, c2sL, s2cL []*Link, connDied bool) {
 					if sh != "HB" {
 						e.Violate(prop, "unary-request-shape", "client", "unary request id %d has shape %s, want header+body", r.GetId(), sh)
 					}
+				} else if sh == "HR" && refusedOpen[r.GetId()] {
+					// the client tried to open the stream, its context cut the write off, and
+					// since a write cut off by its context says nothing about delivery it
+					// resets the id: the transport had refused the open, so the reset is alone
+					st.reset = true
 				} else if sh != "H" {
 					e.Violate(prop, "open-shape", "client", "first envelope of stream id %d has shape %s, want header only", r.GetId(), sh)
 				}
